@@ -179,6 +179,13 @@ add("C23", "wallet", "exploration",
     "{send sats, mint, send rune, burn rune, split}; broadcast transactions must spend no inscribed output and no runic output not holding the command's rune, and every unspent non-cardinal output must be locked.",
     WALLET_NOTE + " `wallet offer create` is covered under C24's engine, not here.", "DESIGN.md sections 4 (E6) and 5 C23")
 
+add("C24", "wallet", "exploration",
+    "complete product enumeration of offer PSBT shapes through the real `wallet offer accept`, clauses checked whenever the wallet signs",
+    "PSBTs built from every sequence of input kinds (wallet output with the named inscription / another inscription / inscription + runes / cardinal / runic / locked / locked with a forged witness, foreign signed / unsigned / "
+    "script-sig+witness / other witness) x payment {amount-1, amount, amount+1} x named inscription are offered to the real command; whenever the wallet signs and broadcasts, exactly one wallet input holding exactly the named "
+    "inscription and no runes, balance change = amount, other inputs signed and their signatures unchanged must all hold.",
+    WALLET_NOTE + " The property is an only-if: rejecting a good offer is not a violation (accepted offers are counted in the evidence). Mainnet parameters with the integration-test switch.", "DESIGN.md sections 4 (E6) and 5 C24")
+
 NOT_YET = "check not built yet in this round (see DESIGN.md build order); not claimed"
 
 def main():
